@@ -199,6 +199,7 @@ void fire_sources()
   emit_result_and_exit("violation", "deadlock", m);
 }
 
+static int g_trace = -1;
 // Choose the next thread to run and hand the baton over. Called by the baton holder after it has
 // updated its own state (RUNNABLE / BLOCKED / DONE).
 void schedule(bool yielding = false)
@@ -217,6 +218,8 @@ void schedule(bool yielding = false)
       if (t == UINT64_MAX) report_deadlock();
       if (t > g_now)
       {
+        if (g_trace > 0 && g_steps >= (uint64_t)g_trace && g_steps < (uint64_t)g_trace + 400)
+          fprintf(stderr, "TRACE step=%llu time jump +%llu ns (self t%d)\n", (unsigned long long)g_steps, (unsigned long long)(t - g_now), self);
         g_now = t;
         g_timejumps++;
       }
@@ -431,7 +434,6 @@ uint64_t counter(const char* name)
   return it == g_counters.end() ? 0 : it->second;
 }
 
-static int g_trace = -1;
 void point(uint32_t tag)
 {
   simint::TsanIgn _tsan_ign;
@@ -588,6 +590,7 @@ void begin(const Config& c)
 {
   simint::TsanIgn _tsan_ign;
   cfg = c;
+  if (const char* ms = getenv("SIMRT_MAX_STEPS")) cfg.max_steps = strtoull(ms, nullptr, 10); // debugging aid only
   if (&g_atomic_points) g_atomic_points = c.atomic_points;
   if (!g_key_ok) { pthread_key_create(&g_key, key_dtor); g_key_ok = true; }
   nth = 1;
@@ -612,6 +615,7 @@ void reconfigure(const Config& c)
   simint::TsanIgn _tsan_ign;
   int s = cfg.strategy;
   cfg = c;
+  if (const char* ms = getenv("SIMRT_MAX_STEPS")) cfg.max_steps = strtoull(ms, nullptr, 10); // debugging aid only
   if (&g_atomic_points) g_atomic_points = c.atomic_points;
   if (s == PCT && c.strategy != PCT) pct_points.clear();
 }
